@@ -36,6 +36,10 @@ pub struct Fs {
     pub fail_open: bool,
     pub fail_mkdir: bool,
     pub fail_mmap: bool,
+    /// sequence mode (open harness): the n-th `OpenOptions::open` yields file `n` (data file first,
+    /// then the regions file - the order of `Database::open_with_min_len`); `usize::MAX` = resolve the
+    /// file from the last bytes of the path
+    pub open_seq: usize,
 }
 
 const FS0: FileState =
@@ -49,6 +53,7 @@ pub static mut FS: Fs = Fs {
     fail_open: false,
     fail_mkdir: false,
     fail_mmap: false,
+    open_seq: usize::MAX,
 };
 
 #[inline]
@@ -215,7 +220,13 @@ impl OpenOptions {
         if state().fail_open {
             return Err(err());
         }
-        let id = id_of(p.as_ref());
+        let id = if state().open_seq != usize::MAX {
+            let i = state().open_seq;
+            state().open_seq = i + 1;
+            if i < NFILE { i } else { OTHER }
+        } else {
+            id_of(p.as_ref())
+        };
         ghost::log(K::Open, id, self.truncate as usize, 0);
         if self.truncate {
             state().files[id].len = 0;
